@@ -405,7 +405,9 @@ Proof.
   destruct (inter a b); [destruct H|discriminate].
 Qed.
 
-(* graphs the evaluation runs on: sets of triples without boolean literals *)
+(* graphs the evaluation runs on: sets of triples without boolean literals.  The
+   second half is a real restriction: it keeps the proofs out of the data half
+   of the region of F-C04-9 (comparisons meeting literals of two kinds) *)
 Definition gok (g : graph) : Prop := NoDup g /\ graph_nb g = true.
 
 (* ---- the fragment ---- *)
@@ -486,8 +488,9 @@ with efrag (names : list term) (pushed : list var) (e : expr) {struct e} : bool 
   | EIf c a b => efrag names pushed c && efrag names pushed a && efrag names pushed b
   | EExists _ p =>
       match p with
-      | Filter true _ e' q =>
-          frag names pushed q && efrag names (pushed ++ maybe q) e'
+      | Filter nis _ e' q =>
+          (* rdflib must have marked the top filter no_isolated_scope (translateExists does) *)
+          nis && frag names pushed q && efrag names (pushed ++ maybe q) e'
           && negb (nonempty (inter (cmp_vars_e e') (bool_vars q)))
       | _ => frag names pushed p
       end
@@ -545,14 +548,14 @@ Section PD.
   (* EXISTS { p }: what 18.6 asks of the pattern for the current solution [m] *)
   Definition found_bu (g : graph) (m : sol) (p : alg) : bool :=
     match p with
-    | Filter true _ e' q =>
+    | Filter _ _ e' q =>
         existsb (fun m' => compatible m' m && ebv (expr_bu ds g (merge m' m) e')) (eval_bu ds g q)
     | _ => existsb (fun m' => compatible m' m) (eval_bu ds g p)
     end.
   Definition xfrag (pushed : list var) (p : alg) : bool :=
     match p with
-    | Filter true _ e' q =>
-        frag names pushed q && efrag names (pushed ++ maybe q) e'
+    | Filter nis _ e' q =>
+        nis && frag names pushed q && efrag names (pushed ++ maybe q) e'
         && negb (nonempty (inter (cmp_vars_e e') (bool_vars q)))
     | _ => frag names pushed p
     end.
@@ -845,11 +848,11 @@ Section PD.
         * apply (TYP p g0 m _ S Ng I Ty).
       }
       split; [exact HPD|split; [|exact I]].
-      destruct nis; [|apply GEN; auto].
+      destruct nis; [|intros pushed X; cbn [xfrag andb] in X; discriminate X].
       (* the filter at the top of an EXISTS pattern sees the merged solution *)
       intros pushed X g0 c m2 Ng Wc W2 Dc H TyM. cbn [xfrag found_bu] in *.
       apply andb_true_iff in X as [X Ty]. apply negb_true_iff in Ty.
-      apply andb_true_iff in X as [F Ee]. pose proof (frag_shape _ _ _ F) as S.
+      apply andb_true_iff in X as [F Ee]. cbn [andb] in F. pose proof (frag_shape _ _ _ F) as S.
       cbn [eval_td].
       rewrite (nonempty_perm _ _ (Permutation_filter' _ _ _ (IHp pushed F g0 c Ng Wc Dc))).
       set (B := eval_bu ds g0 p).
